@@ -38,14 +38,14 @@ var cliT *testing.T
 // ---- corpus (a pure function of the seed; cached per process) ----
 
 type corpusTree struct {
-	seed    uint64
-	root    string
-	tree    gogen.Tree
-	jsonDB  string
-	pebble  string
-	nSigs   int
-	pairOld string
-	pairNew string
+	seed     uint64
+	root     string
+	tree     gogen.Tree
+	jsonDB   string
+	pebble   string
+	nSigs    int
+	pairOld  string
+	pairNew  string
 	pairDesc map[string]int
 }
 
@@ -686,8 +686,8 @@ func runC10(t *vs.Tape, cfg map[string]string) (res vs.Result) {
 
 type c10ChildSpec struct {
 	Cmd, Target, DB, DepsDepth, PairOld, PairNew, Out string
-	Strict, WithScan, Exact, ScanDeps                  bool
-	Threshold                                          float64
+	Strict, WithScan, Exact, ScanDeps                 bool
+	Threshold                                         float64
 }
 
 func c10Child(specJSON string) {
